@@ -526,9 +526,15 @@ def descriptor_generator(obj) -> [str, BaseObservable]:
     """Yield the name and signal_types for each Observable defined on obj."""
     # we need to traverse the entire class hierarchy to properly get
     # also observables defined in super classes
+    # as in attribute lookup, the first definition of a name along the MRO is the one in
+    # effect: an observable overridden in a subclass must not contribute its signal types
+    seen = set()
     for base in type(obj).__mro__:
         base_dict = vars(base)
 
-        for entry in base_dict.values():
+        for name, entry in base_dict.items():
+            if name in seen:
+                continue
+            seen.add(name)
             if isinstance(entry, BaseObservable):
                 yield entry.public_name, entry.signal_types
